@@ -190,7 +190,7 @@ func (fc *FnCtx) checkStepInv(fr *Frame, st *State, instr ssa.Instruction) {
 		}
 		sort.Strings(names)
 		for _, r := range names {
-			if ws[r] {
+			if ws[r] > 0 {
 				hit = true
 			}
 		}
